@@ -553,6 +553,11 @@ def b_len(it, args, kwargs, fr, node):
     if isinstance(v, VObj):
         if '__len__' in v.fields:
             return v.fields['__len__']
+        if v.fields.get('opaque!'):
+            ln = it.ctx.fresh(f'len({v.name})')
+            it.ctx.assume(ln >= 0)
+            v.fields['__len__'] = ln
+            return ln
         if v.cls is not None and hasattr(v.cls, '__len__'):
             return call_real(it, v.cls.__len__, [v], {}, fr, node, 'len')
     if isinstance(v, (str, bytes, tuple, list, dict, set, frozenset)):
@@ -623,6 +628,8 @@ def b_bytes(it, args, kwargs, fr, node):
                 x = int(x)
             if isinstance(x, VObj) and 'int!' in x.fields:
                 x = x.fields['int!']
+            if isinstance(x, VObj) and x.fields.get('opaque!'):
+                raise Unsupported('bytes([...]) of the unconstrained result of an assumed callee')
             if not is_int(x):
                 raise exc(TypeError, 'bytes([non-int])')
             ok = simp(z_and(to_z3(x) >= 0, to_z3(x) <= 255))
